@@ -23,6 +23,7 @@ type DistOpts struct {
 	AliasInternal bool     // allow internal ids that equal module names / addresses
 	MainAliases   bool     // try MODULE_ACCOUNT:distributor_main_account / BASE_ACCOUNT:<main address> (valid only if validation lets them through)
 	MaxSubs       int
+	NiceShares    bool // every share a multiple of 5%: with inflows that are multiples of 20^5 all amounts stay whole numbers
 }
 
 func acc(t, id string) disttypes.Account { return disttypes.Account{Type: t, Id: id} }
@@ -62,6 +63,22 @@ func Share(r *rand.Rand, budget *big.Int) sdk.Dec {
 	}
 	if v.Sign() < 0 {
 		v = big.NewInt(0)
+	}
+	return sdk.NewDecFromBigIntWithPrec(v, 18)
+}
+
+func shareOpt(r *rand.Rand, budget *big.Int, o DistOpts) sdk.Dec {
+	if !o.NiceShares {
+		return Share(r, budget)
+	}
+	unit := new(big.Int).Exp(big.NewInt(10), big.NewInt(16), nil) // 1%
+	maxSteps := new(big.Int).Div(budget, new(big.Int).Mul(unit, big.NewInt(5))).Int64()
+	if maxSteps <= 0 {
+		return sdk.ZeroDec()
+	}
+	v := new(big.Int).Mul(unit, big.NewInt(5*(1+r.Int63n(maxSteps))))
+	if r.Intn(3) > 0 && maxSteps > 4 {
+		v = new(big.Int).Mul(unit, big.NewInt(5*(1+r.Int63n(4))))
 	}
 	return sdk.NewDecFromBigIntWithPrec(v, 18)
 }
@@ -184,7 +201,7 @@ func tryDist(r *rand.Rand, o DistOpts) []disttypes.SubDistributor {
 		budget.Sub(budget, big.NewInt(1))
 		burn := sdk.ZeroDec()
 		if r.Intn(2) == 0 {
-			burn = Share(r, budget)
+			burn = shareOpt(r, budget, o)
 			budget.Sub(budget, burn.BigInt())
 		}
 		nsh := r.Intn(5)
@@ -194,7 +211,7 @@ func tryDist(r *rand.Rand, o DistOpts) []disttypes.SubDistributor {
 				continue
 			}
 			used[accKey(d)] = true
-			sh := Share(r, budget)
+			sh := shareOpt(r, budget, o)
 			budget.Sub(budget, sh.BigInt())
 			shareSeq++
 			sd.Destinations.Shares = append(sd.Destinations.Shares, &disttypes.DestinationShare{Name: fmt.Sprintf("share%d", shareSeq), Share: sh, Destination: d})
